@@ -43,7 +43,9 @@ LEVEL_TEXT = ("Props/C10.lean (complete, release mode): parseNumber_total / pars
 LEVEL_NOTE = ("Trusted: Lean kernel; rustc; that the models mirror the Rust control flow (correspondence only: C12 stream 871k ops + this "
               "property's arbitrary-byte streams, release and dbg profiles). Actual over-reads are only observable through the guard "
               "page (one byte past the end faults; reads before the start are not caught). The integer parser with the `format` feature "
-              "(prefix/suffix/separators) has no Lean model yet: covered by correspondence only.")
+              "(prefix/suffix/separators) is modelled by Model.ParseIntFormat (Props/C04Format.lean: total for the formats without "
+              "separator/prefix/suffix/leading-zero flag, decided debug panic witness '1h_'; other formats: full statement kept as a def, "
+              "correspondence 0 mismatches on all pi ops).")
 
 
 def feature_sets(tier):
